@@ -50,3 +50,46 @@ protected_len!(c16_protected_len8, 8);
 protected_len!(c16_protected_len9, 9);
 protected_len!(c16_protected_len10, 10);
 protected_len!(c16_protected_len11, 11);
+
+// Number negation (source slice): "for every input string the parsers terminate with a result or an
+// error - never a panic". negated_number folds a detached unary minus into the literal; its arithmetic
+// core (the block after `parse_number(input)?`) is extracted from the current common.rs on every run.
+// Kani's overflow checks are on, so `-i64::MIN`-style negations are reported (seeded change C15-4).
+include!("/verif/slices/negate_number.rs");
+
+fn as_i128(n: &Number) -> Option<i128> {
+    if let Some(i) = n.as_i64() {
+        Some(i as i128)
+    } else {
+        n.as_u64().map(|u| u as i128)
+    }
+}
+
+// @check id=C15 tier=quick cap=600 needs=slice_negate role=number_negation_total_and_exact
+// @fns parser::common::negated_number (arithmetic block, sliced)
+// @bound the parsed literal is any i64, any u64 or any finite f64 (symbolic choice, full width)
+// @assume the sliced block is the one negated_number executes after parse_number (extracted textually, anchored on `let negated`)
+#[kani::proof]
+fn c15_negating_a_literal_never_panics_and_is_exact() {
+    let which: u8 = kani::any();
+    kani::assume(which < 3);
+    let f: f64 = kani::any();
+    kani::assume(f.is_finite());
+    let number = match which {
+        0 => Number::from(kani::any::<i64>()),
+        1 => Number::from(kani::any::<u64>()),
+        _ => Number::from_f64(f).unwrap(),
+    };
+    let before = as_i128(&number);
+    let r = slice_negate(number, "");
+    match (&r, before) {
+        (Ok(n), Some(x)) => assert!(as_i128(n) == Some(-x), "an integer literal negates to exactly its negative"),
+        (Err(()), Some(x)) => assert!(x > (1i128 << 63), "refused only when the negative does not fit an integer (above 2^63)"),
+        (Ok(n), None) => assert!(n.as_f64() == Some(-f), "a float literal negates to its negative"),
+        (Err(()), None) => assert!(false, "a finite float always negates"),
+    }
+    kani::cover!(before == Some(i64::MIN as i128), "i64::MIN negates to 2^63");
+    kani::cover!(before == Some(1i128 << 63) && r.is_ok(), "2^63 negates to i64::MIN");
+    kani::cover!(r.is_err(), "2^63 + 1 and above refused");
+    kani::cover!(which == 2 && f < 0.0, "negative float");
+}
